@@ -32,6 +32,12 @@ func (a *Addressing) ExtractMailbox(address string) (string, error) {
 	if err != nil {
 		return "", err
 	}
+	if local == "" {
+		return "", errors.New("mailbox name cannot be empty")
+	}
+	if local[0] == '.' || local[len(local)-1] == '.' || strings.Contains(local, "..") {
+		return "", fmt.Errorf("mailbox name %q has a misplaced period", local)
+	}
 
 	if a.Config.MailboxNaming == config.LocalNaming {
 		return local, nil
@@ -49,7 +55,7 @@ func (a *Addressing) ExtractMailbox(address string) (string, error) {
 		return "", fmt.Errorf("domain part %q in %q failed validation", domain, address)
 	}
 
-	return local + "@" + domain, nil
+	return local + "@" + canonicalDomain(domain), nil
 }
 
 // NewRecipient parses an address into a Recipient. This is used for parsing RCPT TO arguments,
@@ -238,7 +244,16 @@ func extractDomainMailbox(address string) (string, error) {
 		return "", fmt.Errorf("domain part %q in %q failed validation", domain, address)
 	}
 
-	return domain, nil
+	return canonicalDomain(domain), nil
+}
+
+// canonicalDomain lower-cases a validated domain for use in a mailbox name.  The case sensitive
+// "IPv6:" tag of a bracketed IP literal is preserved so the result still validates.
+func canonicalDomain(domain string) string {
+	if strings.HasPrefix(domain, "[IPv6:") {
+		return "[IPv6:" + strings.ToLower(domain[6:])
+	}
+	return strings.ToLower(domain)
 }
 
 // parseEmailAddress unescapes an email address, and splits the local part from the domain part.  An
